@@ -269,6 +269,21 @@ func c04Scenarios() []*c04Scenario {
 			return c04Find(w, ctx, nil)
 		}}
 	}
+	// counts inside a transaction see what its finds see
+	countsAgree := func() *c04Op {
+		return &c04Op{name: "counts vs Find", run: func(w *world.World, ctx context.Context) string {
+			docs, err := findAll(ctx, w.C("d", "c"))
+			if err != nil {
+				return "err"
+			}
+			est, e1 := w.C("d", "c").EstimatedDocumentCount(ctx)
+			cnt, e2 := w.C("d", "c").CountDocuments(ctx, bD())
+			if e1 != nil || e2 != nil || int(est) != len(docs) || int(cnt) != len(docs) {
+				return fmt.Sprintf("Find sees %d documents, EstimatedDocumentCount %d (%v), CountDocuments %d (%v)", len(docs), est, e1, cnt, e2)
+			}
+			return strings.Join(docs, "|")
+		}}
+	}
 	d1 := bD("_id", int32(1), "n", int32(0))
 	d2 := bD("_id", int32(2), "n", int32(0))
 	ttl := func(w *world.World) {
@@ -346,6 +361,15 @@ func c04Scenarios() []*c04Scenario {
 				for _, c := range calls {
 					if c.op.name == "ListCollectionNames(d)" && strings.HasPrefix(c.result, "collections ") {
 						return "a reader listed " + c.result + " although the transaction that created d.ghost never committed"
+					}
+				}
+				return ""
+			}},
+		{name: "S18 transaction (insert, counts, insert, counts) vs inserting client", setup: seed(d1), threads: [][]*c04Op{{ins("a", 2), countsAgree(), ins("b", 3), countsAgree()}, {ins("c", 4)}}, txn: []bool{true, false}, bound: -1,
+			expect: func(calls []*c04Call, final string) string {
+				for _, c := range calls {
+					if c.op.name == "counts vs Find" && strings.HasPrefix(c.result, "Find sees") {
+						return "inside the transaction: " + c.result
 					}
 				}
 				return ""
